@@ -380,6 +380,9 @@ class Interp(object):
         try:
             return getattr(obj, attr)
         except AttributeError:
+            if isinstance(obj, Arr) or hasattr(obj, 'is_elem_') or isinstance(obj, (Poly, Rat, Fr)):
+                # a real ndarray / numpy scalar may well have it: the summary is missing, not the attribute
+                raise AnalysisError('ndarray attribute %r is not modelled [at %s]' % (attr, self.where()))
             raise InterpRaise("'%s' object has no attribute '%s'" % (type(obj).__name__, attr), 'AttributeError')
 
     def setattr(self, obj, attr, value):
@@ -754,6 +757,8 @@ class Interp(object):
             base._where = self.where()
             if self.on_store is not None:
                 self.on_store(base, idx, val)
+        if isinstance(base, dict) and self.on_dict_store is not None:
+            self.on_dict_store(base, idx, val)
         try:
             base[idx] = val
         except (IndexError, KeyError, TypeError) as exc:
@@ -762,6 +767,7 @@ class Interp(object):
             raise InterpRaise(str(exc), type(exc).__name__)
 
     on_store = None
+    on_dict_store = None
 
     def aug_assign(self, st, fr):
         t = st.target
@@ -1244,6 +1250,8 @@ class Interp(object):
         def b_round(x, nd=None):
             c = ndarr.concrete_real(x)
             if c is None:
+                if isinstance(x, (Poly, Rat)):
+                    return Poly.sym('round(%r, %r)' % (x, nd))
                 raise I.err('round() of symbolic value')
             return round(c) if nd is None else round(c, nd)
 
